@@ -345,7 +345,7 @@ func (in *Interp) panicMsg(v Value) string {
 		}
 		if ifc.T != nil {
 			// error values: try Error()
-			if m := in.prog.LookupMethod(ifc.T, nil, "Error"); m != nil {
+			if m := in.lookupMethod(ifc.T, "Error"); m != nil {
 				func() {
 					defer func() {
 						if r := recover(); r != nil {
